@@ -279,7 +279,12 @@ def render(ast, rng, redundant=0.0, spacing=True):
         # concatenation is associative: a right child that is itself a concatenation needs no parentheses,
         # but we keep the tree shape out of the comparison anyway
         op = rng.choice([" ", ".", " . ", "  "]) if spacing else rng.choice([" ", "."])
-        return sub(ast[1], 1) + op + sub(ast[2], 1)
+        ls, rs_ = sub(ast[1], 1), sub(ast[2], 1)
+        if ((ls == "$" and (rs_[:1].isalnum() or rs_[:1] == "$")) or
+                (rs_ == "$" and (ls[-1:].isalnum() or ls[-1:] == "$") and not ls.endswith("epsilon"))) \
+                and rng.random() < 0.6:
+            op = ""             # the one-character epsilon is its own token: a$ is a followed by the empty word
+        return ls + op + rs_
     if k == "alt":
         op = rng.choice(["|", "+"])
         return sub(ast[1], 0) + sp() + op + sp() + sub(ast[2], 0)
